@@ -47,13 +47,12 @@ def _rows(tier: str):
         ('explicit-prev-P1-f3-ra2', [('R1', [E(A(x), a)]),
                                      ('P1', [E(A(a, -1), a)])], 3, 'a',
          'P2', (a,), None),
+        ('up-P1-f3-ra2', [('P1', [E(A(x), a)])], 3, 'a', 'P2', (a,), None),
     ]
     if tier == 'thorough':
         rows += [
             ('solo-P1-f4-ra2', [('P1', solo)], 4, 'a', 'P2', (a,), None),
             ('solo-P2-f5-ra3', [('P2', solo)], 5, 'a', 'P3', (a,), None),
-            ('up-P1-f3-ra2', [('P1', [E(A(x), a)])], 3, 'a', 'P2', (a,),
-             None),
             ('up-down-P1-f2-ra1', [('P1', [E(A(x), a), E(A(a), b)])], 2,
              'a', 'P1', (a,), None),
             ('two-P2-P3-f7-ra3', [('P2', solo), ('P3', solo)], 7, 'a', 'P3',
@@ -72,6 +71,12 @@ def _rows(tier: str):
              (a, b), None),
             ('warm-two-P2-P3-f7-ra3', [('P2', solo), ('P3', solo)], 7, 'a',
              'P3', (a,), 4),
+            ('down-P1-f4-ra3', [('P1', [E(A(a), b)])], 4, 'a', 'P3', (a,),
+             None),
+            ('par-P1-f3-ra2', [('P1', [N(a), N(b)])], 3, 'a', 'P2', (a, b),
+             None),
+            ('two-P2-P3-f5-ra3-down', [('P2', [E(A(a), b)]), ('P3', solo)],
+             5, 'a', 'P3', (a,), None),
             ('prevdep-P1-f3-ra2', [('P1', [E(A(a, -1), b), N(a)])], 3, 'a',
              'P2', (a,), None),
         ]
@@ -109,10 +114,10 @@ def run(ctx: Ctx) -> Result:
     mon_c04.COUNTER_DIR = str(cdir)
     st = explore_all(
         ctx, [make_factory(s) for s in specs],
-        max_states=ctx.pick(4000, 40000), max_seconds=ctx.pick(110, 1500))
+        max_states=ctx.pick(4000, 40000), max_seconds=ctx.pick(600, 3000))
     counts = {k[4:]: v for k, v in mon_c04.read_counts(str(cdir)).items()
               if k.startswith('c31:')}
-    if not st.violations and not st.error:
+    if not st.violations and not st.error and not st.capped:
         need = ['submissions-with-previous', 'previous-not-adjacent',
                 'previous-before-start-point', 'first-instance',
                 'states-with-an-active-instance', 'terminals-with-failure',
